@@ -5,7 +5,11 @@ Line-protocol driver for C04.
 
 Ops (`e` = exchange id of the execution link the op is executed on):
   `build D <n> {ex instInternal instName baseInternal baseName quoteInternal quoteName}*
+         [E <m> {defPos kind assetInternal assetName}*]
          X <n> {key id}* A <n> {key ex name}* I <n> {key ex name}*`
+        (`E`: definition `defPos` is a perpetual / future / option with that settlement asset
+        (kind 1 / 2 / 3) or a spot instrument whose spec has that asset as quantity unit (kind 4): an
+        asset of the exchange that need not be any instrument's base or quote)
         the instrument definitions fed to the real builder (skipped by the model: indexing is C11)
         and the indexed collection the builder produced from them (printed by both sides: the
         harness prints what the real builder returns, so a stale table is a disagreement)
@@ -257,7 +261,18 @@ def pPairs : P (List (Nat × Nat)) :=
 def pDefs : P Unit
   | "D" :: ts =>
     match pNat ts with
-    | some (n, ts) => (pRep pNat (7 * n) ts).map fun (_, ts) => ((), ts)
+    | some (n, ts) =>
+      match pRep pNat (7 * n) ts with
+      | some (_, "E" :: ts) =>
+        -- extra assets (settlement asset / quantity unit): {definition position, kind 1..4, internal
+        -- name, exchange name}; one per definition at most
+        match pList (pRep pNat 4) ts with
+        | some (es, ts) =>
+          if es.all (fun e => e[0]! < n && 1 ≤ e[1]! && e[1]! ≤ 4) && (es.map (·[0]!)).Nodup
+          then some ((), ts) else none
+        | none => none
+      | some (_, ts) => some ((), ts)
+      | none => none
     | none => none
   | _ => none
 
